@@ -11,6 +11,8 @@ pub mod stdspec {
     // ---- slices: to_vec / swap (not specified by vstd)
     pub assume_specification<T: Clone> [<[T]>::to_vec] (s: &[T]) -> (r: Vec<T>)
         ensures r@.len() == s@.len(), forall|i: int| 0 <= i < s@.len() ==> cloned::<T>(#[trigger] s@[i], r@[i]);
+    pub assume_specification<T: Clone> [<[T] as std::borrow::ToOwned>::to_owned] (s: &[T]) -> (r: Vec<T>)
+        ensures r@.len() == s@.len(), forall|i: int| 0 <= i < s@.len() ==> cloned::<T>(#[trigger] s@[i], r@[i]);
     pub assume_specification<T> [<[T]>::swap] (s: &mut [T], a: usize, b: usize)
         requires a < old(s)@.len(), b < old(s)@.len()
         ensures final(s)@ == old(s)@.update(a as int, old(s)@[b as int]).update(b as int, old(s)@[a as int]);
